@@ -7,9 +7,26 @@ VERIF = os.path.dirname(os.path.dirname(os.path.abspath(__file__)))
 REPO = os.environ.get("VERIF_REPO", "/repo")
 BUILD = os.path.join(VERIF, "build")
 COQ = os.path.join(VERIF, "coq")
-CARGO_TARGET = os.path.join(BUILD, "cargo")
-MODELRUN = os.path.join(BUILD, "ocaml", "modelrun")
 NPROC = os.cpu_count() or 4
+
+
+def claimed_props():
+    try:
+        m = json.load(open(os.path.join(VERIF, "MANIFEST.json")))
+        return sorted(c["property_id"] for c in m["checks"])
+    except Exception:
+        return []
+
+
+# Development mode (used while a property is being built): VERIF_DEV="C07,C08" restricts the
+# Coq targets, the extracted dispatcher and the harness features to those properties and uses
+# private build directories, so that unfinished work on other properties cannot break the run.
+DEV = [p.strip().upper() for p in os.environ.get("VERIF_DEV", "").split(",") if p.strip()]
+ACTIVE = DEV if DEV else claimed_props()
+_SUFFIX = ("-dev-" + "_".join(DEV)) if DEV else ""
+CARGO_TARGET = os.path.join(BUILD, "cargo" + _SUFFIX)
+OCAML_DIR = os.path.join(BUILD, "ocaml" + _SUFFIX)
+MODELRUN = os.path.join(OCAML_DIR, "modelrun")
 
 ENV = dict(os.environ, CARGO_NET_OFFLINE="true", CARGO_TARGET_DIR=CARGO_TARGET,
            RUSTFLAGS=os.environ.get("RUSTFLAGS", "") + " -Awarnings")
@@ -38,6 +55,10 @@ def sh(cmd, cwd=None, timeout=3600, env=None, check=False):
     if check and p.returncode != 0:
         raise RuntimeError("command failed: %s\n%s" % (cmd, p.stdout[-4000:]))
     return p.returncode, p.stdout
+
+
+class BuildError(Exception):
+    pass
 
 
 class Lock:
@@ -110,22 +131,50 @@ def build_coq():
         if not os.path.exists(os.path.join(COQ, "Makefile")) or \
            os.path.getmtime(os.path.join(COQ, "Makefile")) < os.path.getmtime(os.path.join(COQ, "_CoqProject")):
             sh("coq_makefile -f _CoqProject -o Makefile", cwd=COQ, check=True)
-        rc, out = sh("timeout 3000 make -k -j%d 2>&1" % NPROC, cwd=COQ, timeout=3100)
+        targets = ""
+        if DEV:
+            want = ["theories/Run/RunC00.vo"]
+            proj = open(os.path.join(COQ, "_CoqProject")).read()
+            for p in DEV:
+                for f in ("theories/Run/Run%s.v" % p, "theories/Properties/%s.v" % p):
+                    if f in proj:
+                        want.append(f + "o")
+            targets = " ".join(want)
+        rc, out = sh("timeout 3000 make -k -j%d %s 2>&1" % (NPROC, targets), cwd=COQ, timeout=3100)
         return rc == 0, out[-6000:]
 
 
+def extract_source():
+    """The extraction file is generated: one dispatcher over the active properties.
+    ExtrOcamlBasic only; no Extract Constant / Extract Inductive of our own."""
+    props = ["C00"] + [p for p in ACTIVE if p != "C00" and os.path.exists(os.path.join(COQ, "theories", "Run", "Run%s.v" % p))]
+    imports = " ".join("Run.Run%s" % p for p in props)
+    arms = "\n".join("  | SL (SZ %d%%Z :: args) => run_%s args" % (int(p[1:]), p.lower()) for p in props)
+    return ("From Coq Require Import Extraction ExtrOcamlBasic List ZArith NArith.\n"
+            "From EasyML Require Import Base.Sx %s.\n"
+            "Definition run (c : sx) : sx :=\n  match c with\n%s\n  | _ => bad_case\n  end.\n"
+            "Extraction Language OCaml.\n"
+            "Extraction \"model.ml\" run Z.add Z.mul Z.div_eucl Z.opp Z.abs.\n" % (imports, arms))
+
+
 def build_modelrun():
-    """Extraction + ocamlopt, redone whenever Run.vo is newer than the binary."""
-    with Lock("ocaml.lock"):
-        runvo = os.path.join(COQ, "theories", "Run", "Run.vo")
-        if not os.path.exists(runvo):
-            raise RuntimeError("model runner cannot be built: Run/Run.vo missing (Coq build failed)")
-        srcs = [runvo, os.path.join(VERIF, "ocaml", "modelrun.ml"), os.path.join(COQ, "extraction", "Extract.v")]
-        if os.path.exists(MODELRUN) and all(os.path.getmtime(MODELRUN) >= os.path.getmtime(s) for s in srcs):
-            return
-        d = os.path.join(BUILD, "ocaml")
+    """Extraction + ocamlopt, redone whenever a Run*.vo is newer than the binary."""
+    with Lock("ocaml%s.lock" % _SUFFIX):
+        d = OCAML_DIR
         os.makedirs(d, exist_ok=True)
-        sh("coqc -Q %s/theories EasyML -o %s/Extract.vo %s/extraction/Extract.v" % (COQ, d, COQ), cwd=d, check=True)
+        src = extract_source()
+        vos = [os.path.join(COQ, "theories", "Run", "Run%s.vo" % p) for p in ["C00"] + [q for q in ACTIVE if q != "C00"]
+               if os.path.exists(os.path.join(COQ, "theories", "Run", "Run%s.v" % p))]
+        missing = [v for v in vos if not os.path.exists(v)]
+        if missing:
+            raise BuildError("model runner cannot be built: %s missing (Coq build failed)" % missing)
+        ex = os.path.join(d, "Extract.v")
+        old = open(ex).read() if os.path.exists(ex) else None
+        deps = vos + [os.path.join(VERIF, "ocaml", "modelrun.ml")]
+        if old == src and os.path.exists(MODELRUN) and all(os.path.getmtime(MODELRUN) >= os.path.getmtime(s) for s in deps):
+            return
+        open(ex, "w").write(src)
+        sh("coqc -Q %s/theories EasyML Extract.v" % COQ, cwd=d, check=True)
         shutil.copy(os.path.join(VERIF, "ocaml", "modelrun.ml"), d)
         sh("ocamlfind ocamlopt -O2 -w -a model.mli model.ml modelrun.ml -o modelrun.tmp && mv modelrun.tmp modelrun",
            cwd=d, check=True)
@@ -133,20 +182,17 @@ def build_modelrun():
 
 def build_harness():
     """cargo build of the harness against /repo's CURRENT working tree, dev and release."""
-    with Lock("cargo.lock"):
+    with Lock("cargo%s.lock" % _SUFFIX):
         h = os.path.join(VERIF, "harness")
         res = {}
         for prof, flag in (("debug", ""), ("release", "--release")):
             t0 = time.time()
-            rc, out = sh("cargo build --offline %s 2>&1" % flag, cwd=h, timeout=3000)
+            feats = " ".join(p.lower() for p in ACTIVE if p != "C00" and os.path.exists(os.path.join(h, "src", p.lower() + ".rs")))
+            rc, out = sh("cargo build --offline %s --no-default-features --features '%s' 2>&1" % (flag, feats), cwd=h, timeout=3000)
             if rc != 0:
                 raise BuildError("harness does not build against /repo (%s):\n%s" % (prof, out[-5000:]))
             res[prof] = round(time.time() - t0, 1)
         return res
-
-
-class BuildError(Exception):
-    pass
 
 
 def implrun(profile):
@@ -305,6 +351,7 @@ def shrink_candidates(t):
 
 
 MAXU = 18446744073709551615
+BAD_RESULTS = {"(-1)", "(-3)", "(-4)", "abort"}
 
 
 # ------------------------------------------------------------------ correspondence
@@ -345,10 +392,10 @@ def shrink(dis, budget=400):
                 continue
             c = sx(cand)
             m, _ = _run_lines(MODELRUN, [c], 60)
-            if m[0].startswith("(-"):
+            if m[0] in BAD_RESULTS:
                 continue
             r, _ = _run_lines(implrun(cur.profile), [c], 60)
-            if r[0].startswith("(-1)") or r[0].startswith("(-3)"):
+            if r[0] in ("(-1)", "(-3)"):
                 continue
             if r[0] != m[0]:
                 cur = Disagreement(c, m[0], r[0], cur.profile)
@@ -372,7 +419,7 @@ def correspondence(prop, cases, evid, corpus=True):
     model, _ = run_sharded(MODELRUN, lines)
     evid["model_wall_s"] = round(time.time() - t0, 1)
     out = []
-    bad_model = [i for i, m in enumerate(model) if m.startswith("(-") or m == "abort"]
+    bad_model = [i for i, m in enumerate(model) if m in BAD_RESULTS]
     if bad_model:
         i = bad_model[0]
         raise RuntimeError("model runner rejected %d generated cases, e.g. %s -> %s" % (len(bad_model), lines[i], model[i]))
